@@ -168,6 +168,9 @@ func (d *doc) expect(name string) expectation {
 			x := expectation{Alts: []outcome{o}, Rule: "default-store/" + kind}
 			if tnt && !(len(talts) == 1 && talts[0] == o) {
 				x.Exercised = append(x.Exercised, "default-over-table")
+				if d.CredsStore == "c19dot" {
+					x.Exercised = append(x.Exercised, "unrunnable-default-is-error")
+				}
 			}
 			return x
 		}
